@@ -48,3 +48,27 @@ pub open spec fn valid_witness(st: RangeStatement<P>, w: RangeWitness) -> bool {
     &&& forall|j: int| 0 <= j < w.openings@.len() ==> commit_spec(st.generators.pc_gens, s_of_nat((#[trigger] w.openings@[j]).v as nat), w.openings@[j].r@) == st.commitments@[j]
     &&& forall|j: int| 0 <= j < w.openings@.len() ==> promise_val(#[trigger] st.minimum_value_promises@[j]) <= w.openings@[j].v
 }
+// C09, prover side (single commitment, seed present): every component of d1 as a function of the seed, the blinding factor and
+// the challenges  -  d1_k = eta_k + d_k*e + (alpha_k + z^2*r_k*y^(n+1) + sum_t (dL_tk*e_t^2 + dR_tk*e_t^-2)) * e^2
+pub open spec fn seeded_dl(seed: Scalar, rounds: nat, ext: nat) -> Seq<Seq<Scalar>> {
+    Seq::new(rounds, |t: int| Seq::new(ext, |k: int| nonce_val(seed, "dL".spec_bytes(), Some(t as usize), Some(k as usize))))
+}
+pub open spec fn seeded_dr(seed: Scalar, rounds: nat, ext: nat) -> Seq<Seq<Scalar>> {
+    Seq::new(rounds, |t: int| Seq::new(ext, |k: int| nonce_val(seed, "dR".spec_bytes(), Some(t as usize), Some(k as usize))))
+}
+pub open spec fn d1_spec(seed: Scalar, rs: Seq<Seq<Scalar>>, ch: (Scalar, Scalar, Seq<Scalar>, Scalar), nm: nat, m: nat, ext: nat, k: int) -> Scalar {
+    let (y, z, es, e) = ch;
+    let a0 = nonce_val(seed, "alpha".spec_bytes(), None, Some(k as usize));
+    let a1 = alpha_off(a0, rs, sq(z), s_pow(y, nm + 1), k, m);
+    let a2 = alpha_rounds(a1, seeded_dl(seed, es.len(), ext), seeded_dr(seed, es.len(), ext), es, k, es.len());
+    s_add(s_add(nonce_val(seed, "eta".spec_bytes(), None, Some(k as usize)), s_mul(nonce_val(seed, "d".spec_bytes(), None, Some(k as usize)), e)), s_mul(a2, sq(e)))
+}
+pub open spec fn prover_d1_ok(st: RangeStatement<P>, w: RangeWitness, pr: RangeProof<P>, ch: (Scalar, Scalar, Seq<Scalar>, Scalar)) -> bool {
+    let ext = st.generators.pc_gens.extension_degree as nat;
+    let m = st.commitments@.len();
+    let nm = m * st.generators.bp_gens.gens_capacity as nat;
+    &&& ch.0 != Scalar::ZERO && ch.1 != Scalar::ZERO && ch.3 != Scalar::ZERO
+    &&& forall|t: int| 0 <= t < ch.2.len() ==> #[trigger] ch.2[t] != Scalar::ZERO
+    &&& ch.2.len() == pr.li@.len()
+    &&& (st.seed_nonce is Some ==> forall|k: int| 0 <= k < ext ==> #[trigger] pr.d1@[k] == d1_spec(st.seed_nonce->Some_0, openings_r(w), ch, nm, m, ext, k))
+}
